@@ -19,5 +19,5 @@ run_one() {
   git -C /repo worktree remove --force $wt >/dev/null 2>&1
 }
 export -f run_one
-ls seeded | xargs -P 4 -I{} bash -c 'run_one {}' | tee -a $out
+ls seeded | xargs -P 10 -I{} bash -c 'run_one {}' | tee -a $out
 git -C /repo worktree prune
